@@ -169,7 +169,17 @@ pub fn get_claims(jwt: Option<&str>, config: &Config) -> AuthorizationResult<Jwt
             let (alg, key) = match &header.alg {
                 Algorithm::ES256 => (header.alg, DecodingKey::from_ec_pem(key.as_ref())?),
                 Algorithm::EdDSA => (header.alg, DecodingKey::from_ed_pem(key.as_ref())?),
-                Algorithm::HS256 => (header.alg, DecodingKey::from_secret(key.as_ref())),
+                Algorithm::HS256 => {
+                    // a configured public key must never serve as HMAC secret: anybody who knows it could sign tokens
+                    if DecodingKey::from_ec_pem(key.as_ref()).is_ok()
+                        || DecodingKey::from_ed_pem(key.as_ref()).is_ok()
+                    {
+                        return Err(AuthorizationError::UnsupportedEncryptionAlgorithm(
+                            header.alg,
+                        ));
+                    }
+                    (header.alg, DecodingKey::from_secret(key.as_ref()))
+                }
                 _ => {
                     return Err(AuthorizationError::UnsupportedEncryptionAlgorithm(
                         header.alg,
